@@ -152,9 +152,39 @@ FRAGS = [b"!", b"$", b":", b"~", b"+", b"-", b"&", b"|", b"^", b"=", b"<", b">",
          b"  text\n", b"\ttab\n", b" |||", b"|||\n", b"|||\n  a\n|||", b"|||-\n\ta\n\t|||", b"|||\n\n  a\n\n  b\n  |||"]
 
 
+def _bytes_from(alphabet, max_size):
+    return st.lists(st.sampled_from(alphabet), max_size=max_size).map(lambda l: b"".join(l))
+
+
+# near-valid tokens of each class: a valid frame around a noisy body
+COMMENT_BODY = [b"*", b"*", b"/", b" ", b"a", b"\n", b"**", b"*/", b"/*", b"\xc3\xa9", b"\xff", b"#", b"//"]
+STRING_BODY = [b"a", b"\\", b"\\\\", b"\\n", b"\\u", b"00e9", b"d83d", b"\\ude00", b"\\uD83D", b"'", b'"', b"''", b'""', b"\xc3\xa9", b"\xe2\x82", b"\xf0\x80\x80\x80",
+               b"\xf0\x8f\xbf\xbf", b"\xf0\x9f\x98\x80", b"\xed\xa0\x80", b"\xc0\x80", b"\xff", b"\n", b" ", b"\\x", b"\\/", b"\\b", b"z", b"\xf4\x90\x80\x80", b"\xe0\x9f\xbf"]
+NUMBER_BODY = [b"0", b"1", b"9", b"_", b".", b"e", b"E", b"+", b"-", b"00", b"1e", b"e5", b"_1", b"1_", b"5."]
+TB_LINES = [b"  a\n", b"  \n", b"\n", b"\ta\n", b"   b\n", b" c\n", b"  |||\n", b"  a\r\n", b"  \xff\n", b"  \xc3\xa9\n", b"a\n", b"\t\n", b"  a"]
+
+
+@st.composite
+def structured_fragment(draw):
+    k = draw(st.integers(0, 5))
+    if k == 0:
+        return b"/*" + draw(_bytes_from(COMMENT_BODY, 6)) + b"*/"
+    if k == 1:
+        q = draw(st.sampled_from([b"'", b'"']))
+        return q + draw(_bytes_from(STRING_BODY, 6)) + q
+    if k == 2:
+        q = draw(st.sampled_from([b"@'", b'@"']))
+        return q + draw(_bytes_from(STRING_BODY, 5)) + q[1:]
+    if k == 3:
+        return draw(st.sampled_from([b"1", b"0", b"12", b"7"])) + draw(_bytes_from(NUMBER_BODY, 5))
+    if k == 4:
+        return draw(st.sampled_from([b"|||\n", b"|||-\n", b"||| \n", b"|||\t\r\n", b"|||"])) + draw(_bytes_from(TB_LINES, 5)) + draw(st.sampled_from([b"|||", b" |||", b"\t|||", b"  |||", b""]))
+    return draw(st.sampled_from([b"//", b"#"])) + draw(_bytes_from(COMMENT_BODY, 4)) + b"\n"
+
+
 @st.composite
 def soup_case(draw):
-    parts = draw(st.lists(st.sampled_from(FRAGS), min_size=1, max_size=14))
+    parts = draw(st.lists(st.one_of(st.sampled_from(FRAGS), st.sampled_from(FRAGS), structured_fragment()), min_size=1, max_size=12))
     return {"hex": b"".join(parts).hex()}
 
 
